@@ -19,7 +19,9 @@
 EXTENDS Integers, Sequences, FiniteSets, TLC, Json, IOUtils, SequencesExt
 
 CONSTANT StatusRewrapBug,  \* TRUE: endpoint metrics replace the (wrapped) status handler by the bare one
-         IdleBypassBug     \* TRUE: the idle-timeout closure calls the bare cache handler instead of the wrapped one
+         IdleBypassBug,    \* TRUE: the idle-timeout closure calls the bare cache handler instead of the wrapped one
+         TlsExclusiveBug   \* TRUE: the gRPC interceptors for htpasswd are only installed when no TLS configuration
+                           \* exists ("client certificates take precedence") - but a plain server certificate is one
 
 AuthModes == {"none", "basic", "mtls"}
 
@@ -56,7 +58,11 @@ ValidCred(c) == c \in {"valid", "validCert"}
 
 \* idle: --idle_timeout > 0 puts one more closure around the (already wrapped) cache handler and an
 \* interceptor in front of the gRPC ones; it must not change who gets through
-Configs == {c \in [auth : AuthModes, allow : BOOLEAN, metrics : BOOLEAN, idle : BOOLEAN] : c.auth = "none" => ~c.allow}
+\* tls: a server certificate without a client CA - transport security only, it must not change who gets through
+\* either (explored without the other two options: the three are wired independently)
+Configs == {c \in [auth : AuthModes, allow : BOOLEAN, metrics : BOOLEAN, idle : BOOLEAN, tls : BOOLEAN] :
+              /\ c.auth = "none" => ~c.allow
+              /\ c.tls => (c.auth # "mtls" /\ ~c.metrics /\ ~c.idle)}
 
 HttpReqs == [iface : {"http"}, method : HttpMethods, path : HttpPaths]
 GrpcReqs == [iface : {"grpc"}, method : GrpcMethods, path : {"-"}]
@@ -108,6 +114,7 @@ MechMetrics(cfg, r, cred) ==
 \* gRPC interceptors
 MechGrpc(cfg, r, cred) ==
   IF cfg.auth = "none" THEN TRUE
+  ELSE IF cfg.auth = "basic" /\ cfg.tls /\ TlsExclusiveBug THEN TRUE
   ELSE IF r.method = HealthCheck THEN TRUE            \* unary interceptors: always open
   ELSE IF cfg.allow /\ r.method \in ReadOnlyGrpc THEN TRUE
   ELSE ValidCred(cred)
@@ -149,7 +156,7 @@ InvMechanismIsPolicy == Consistent(cur)
 Expect(x) == IF ~Served(x.cfg, x.req) THEN "inert"
              ELSE IF PolicyAllowed(x.cfg, x.req, x.cred) /\ Handshake(x.cfg, x.cred) THEN "through" ELSE "refused"
 
-Row(x) == [auth |-> x.cfg.auth, allow |-> x.cfg.allow, metrics |-> x.cfg.metrics, idle |-> x.cfg.idle, iface |-> x.req.iface,
+Row(x) == [auth |-> x.cfg.auth, allow |-> x.cfg.allow, metrics |-> x.cfg.metrics, idle |-> x.cfg.idle, tls |-> x.cfg.tls, iface |-> x.req.iface,
            method |-> x.req.method, path |-> x.req.path, cred |-> x.cred, expect |-> Expect(x),
            streaming |-> x.req.method \in StreamingGrpc]
 
